@@ -2,17 +2,20 @@
 
 PART 1 (E-seq, mc.engine.explore): the switch-side RecocoIOWorker inside a hand-driven RecocoIOLoop
   (the real `RecocoIOLoop.run()` generator is advanced by the harness, which answers every yielded
-  Select with the ready lists).  Three distinct messages are queued with send()/send_fast(); the
-  outcome of every socket.send call is an explorer choice; so is the interleaving of client calls and
-  loop iterations.
+  Select with the ready lists).  Three distinct messages are queued with send()/send_fast(), optionally
+  with worker.shutdown() between/after them or close() at the end; the outcome of every socket.send call
+  is an explorer choice; so is the interleaving of client calls and loop iterations.
 PART 2 (E-thr, mc/thr.py): the controller's real of_01.Connection.send on a controlled "cooperative"
   thread and the real DeferredSender.run loop on its own controlled thread; every thread schedule
   within a deviation bound (line granularity in the hand-off functions of of_01.py) x every script of
-  socket outcomes within its own deviation bound.
+  socket outcomes within its own deviation bound.  "Back-pressure" scenarios add a model of full socket
+  buffers (not writable for select until a peer thread drains them) and default socket scripts that put
+  two connections into the deferred state, with the last message sent after the deferred sender went idle.
 
 Oracle (both parts): the bytes accepted by the socket are a prefix of the concatenation of the queued
 messages, all of it at quiescence unless the connection was lost; after a fatal send error no further
-socket.send on that socket; the close notification (close handler / ConnectionDown) exactly once.
+socket.send on that socket; the close notification (close handler / ConnectionDown) exactly once;
+SHUT_WR (part 1) at most once, only after every queued byte was accepted, and no send after it.
 """
 import errno, gc, os, socket as _socket, sys
 from mc.engine import explore, pmap, Ctx, cost_of
@@ -780,21 +783,27 @@ def run (cfg):
   for r in pmap(p2_worker, level, cfg.workers, seed=cfg.seed):
     rep.merge(r)
   rep.rule = ("part 1: real RecocoIOWorker in a hand-driven RecocoIOLoop.run() generator; messages %r queued with every listed "
-              "send/send_fast combination (and a variant ending with close()); every interleaving of client calls and loop "
-              "iterations; every script of socket.send outcomes {accept all, accept 1, accept n-1, EAGAIN, EPIPE} over the first 6 "
+              "send/send_fast combination (variants: close() at the end; worker.shutdown() after 0..3 of the sends); every interleaving "
+              "of client calls and loop iterations; every script of socket.send outcomes {accept all, accept 1, accept n-1, accept "
+              "ceil(n/2), EAGAIN, EPIPE} over the first 6 "
               "send calls with <= %d non-default outcomes.  part 2: real of_01.Connection.send on a controlled cooperative thread "
               "(followed by a model of the OpenFlow_01_Task read/close loop) and the real DeferredSender.run on its own controlled "
               "thread; 1 or 2 connections, with and without EOF from the peer after the sends; every thread schedule within the "
               "stated number of deviations from the default schedule (scheduling points: line events in %s, every "
               "RLock/select/waker operation) x every script of outcomes of the first 4 sock.send calls within the stated number of "
-              "non-default outcomes.  distinct = (variant, history/verdict, socket calls, accepted bytes, notifications, failed clauses)"
-              % (list(MSGS), cfg.pick(2, 3), ", ".join(FUNCS)))
+              "non-default outcomes; back-pressure scenarios (2 connections, sends A,B,A / A,B,B,A, last send after the deferred "
+              "sender went idle or immediately): default socket scripts %r (per connection), a full socket is not writable until a "
+              "third controlled thread (the peer) drains it, first 6 sock.send calls scripted.  "
+              "distinct = (variant, history/verdict, socket calls, accepted bytes, notifications, failed clauses)"
+              % (list(MSGS[:3]), cfg.pick(2, 3), ", ".join(FUNCS), BACKLOGS))
   rep.bound = dict(part1=dict(configs=len(c1), send_calls_scripted=6, script_deviations=cfg.pick(2, 3)),
                    part2=dict(configs=len(c2), send_calls_scripted=4, scheduling_points_default_execution=pts))
   rep.assumptions = ["C-level atomicity of dict/list operations (CPython GIL); code outside the listed of_01 functions runs atomically between scheduling points",
                      "modelled RLock/select/waker (mc/thr.py); the fake socket is always writable until closed, a shut-down socket is readable/writable and fails sends with EPIPE, "
                      "select on a closed socket raises ValueError like select.select; DeferredSender's 5 s select timeout is a polling interval never fired while data is queued",
                      "fatal errors are those of send calls; EOF is delivered to the cooperative thread only after its three sends",
+                     "back-pressure scenarios: a short write or EAGAIN means the socket buffer is full; it stays unwritable (select) and refuses sends (EAGAIN) until the peer thread drains it",
+                     "part 1: queueing after SHUT_WR was issued is a client error and is not explored; SHUT_WR is only demanded when shutdown() was requested while bytes were unsent",
                      "no partial-order reduction: counts are schedules x scripts, not equivalence classes"]
   return rep
 
